@@ -25,6 +25,7 @@ class FGen:
     def __init__(self, draw, version='31', max_depth=3, typed=False, reuse=False):
         self.draw, self.v, self.max_depth, self.typed, self.reuse = draw, version, max_depth, typed, reuse
         self.nvar = 0
+        self.banned = []
 
     def k(self, n=99):
         return self.draw(_upto(n))
@@ -35,10 +36,19 @@ class FGen:
         if self.reuse and p in ('p', 'v', 'f', 'b'):
             # parameters, for variables and let variables share one tiny pool: a call binds a name that is also
             # a variable where the call is made (the caller's binding must be untouched after the call)
-            pool = [n for n in ('x', 'y', 'z') if n not in avoid]
-            return _sf(self.draw, pool)
+            pool = [n for n in ('x', 'y', 'z') if n not in avoid and n not in self.banned]
+            if pool:
+                return _sf(self.draw, pool)
         self.nvar += 1
         return f'{p}{self.nvar}'
+
+    def range_expr(self, nm, d, sc):
+        """the range expression of `for $nm in ...`: $nm must not occur in it at all, not even as a parameter
+        (elementpath rejects that statically: known finding C08/range-mentions-own-name)"""
+        self.banned.append(nm)
+        e = self.seq(d + 1, tuple(v for v in sc if v[0] != nm))
+        self.banned.pop()
+        return e
 
     def vars_of(self, sc, kind):
         """names whose INNERMOST binding has the kind"""
@@ -130,7 +140,7 @@ class FGen:
             return ['call', 'sort', [self.seq(d + 1, sc), ['empty'], self.fun('f1', d + 1, sc)]]
         if k < 69:
             nm = self.fresh()
-            return ['for', [[nm, self.seq(d + 1, sc)]], self.int_(d + 1, sc + ((nm, 'int'),))]
+            return ['for', [[nm, self.range_expr(nm, d, sc)]], self.int_(d + 1, sc + ((nm, 'int'),))]
         if k < 72:      # callbacks returning sequences (flattening), sequence-valued accumulators
             kk = self.k(5)
             a = self.fresh('p')
@@ -154,7 +164,7 @@ class FGen:
             return ['dyn', ['call', 'insert-before', [['?'], ['int', _sf(self.draw, [1, 2])], ['?']]], [self.seq(d + 1, sc), self.seq(d + 1, sc)]]
         if k < 74:
             nm = self.fresh()
-            return ['for', [[nm, self.seq(d + 1, sc)]], self.int_(d + 1, sc + ((nm, 'int'),))]
+            return ['for', [[nm, self.range_expr(nm, d, sc)]], self.int_(d + 1, sc + ((nm, 'int'),))]
         if k < 80:
             f = self.fun('f1', d + 1, sc)
             return ['map', self.seq(d + 1, sc), ['dyn', f, [['ctx']]]]
@@ -168,6 +178,8 @@ class FGen:
             if self.k(1):
                 return ['map', fs, ['dyn', ['ctx'], [self.int_(d + 1, sc)]]]
             nm = self.fresh('f')
+            if fs[1] == nm:
+                nm = 'f%d' % self.nvar
             return ['for', [[nm, fs]], ['dyn', ['var', nm], [self.int_(d + 1, sc)]]]
         return self.lit_seq()
 
